@@ -17,6 +17,8 @@ prop('T00',   # framework self-check property (not in MANIFEST): Ite::new only
      assumptions=[A_VERUS, A_EXTRACT],
      not_covered=[], replay=None)
 
+prop('T01', units=['ff'], assumptions=[A_VERUS, A_EXTRACT], not_covered=[], replay='ff')
+
 
 def proved_includes(root):
     """set of inc/*.rs files that some unit template includes non-assumed"""
